@@ -613,17 +613,17 @@ func Gen(g *hx.Gen) {
 	}
 	g.Exhaustive(fmt.Sprintf("every subset of the %d words of length <= %d over {a,b}", len(short), g.Pick(2, 3)))
 	// structured random sets as in C12
-	for i, n := 0, g.Pick(2500, 60000); i < n; i++ {
+	for i, n := 0, g.Pick(6000, 150000); i < n; i++ {
 		emit(wordSet(r, randAlphabet(r)))
 	}
 	// full byte alphabet: a node with k links for the boundary values of k
 	budget := g.Pick(400000, 8000000)
-	for i, n := 0, g.Pick(4, 40); i < n; i++ {
+	for i, n := 0, g.Pick(6, 60); i < n; i++ {
 		for _, k := range boundaries {
 			emit(wide(r, k, budget))
 		}
 	}
-	for i, n := 0, g.Pick(20, 400); i < n; i++ {
+	for i, n := 0, g.Pick(40, 1000); i < n; i++ {
 		emit(wide(r, r.Range(0, 256), budget))
 	}
 	// node counts and ids across 127 and 255: chains; word counts across 127 and 255
